@@ -8,6 +8,7 @@ pub mod elf;
 pub mod helpers;
 pub mod layout;
 pub mod md;
+pub mod normal;
 pub mod regs;
 pub mod target;
 pub mod world;
